@@ -3,7 +3,7 @@
 From Coq Require Import List Arith Bool Lia ZArith.
 From LV Require Import Cfg.Grammar Gen.ScanHoles Scan.Scan Scan.Scan_proofs Scan.ScanInst.
 From LV Require Pos.PosBase Gen.LineCounter Gen.LexStep Pos.Coord Pos.LineCounter_proofs Pos.LexCoords
-  Pos.LexCoords_proofs Pos.Current Pos.TreeShift Shape.Chain LR.Driver.
+  Pos.LexCoords_proofs Pos.Repr_proofs Pos.Current Pos.TreeShift Pos.TreeShift_proofs Shape.Chain LR.Driver.
 Import ListNotations.
 
 (* ------------------------------------------------------------------------------------------ *)
@@ -518,6 +518,75 @@ Section InstProofs.
     repeat split; auto.
     - apply parse_window_snip; auto; lia.
     - destruct (parse_tokens_accepted l Ac) as (d & Ed). exists l, d. auto.
+  Qed.
+
+  (* ... and, when the terminals have no look-around on the window (H_ctxfree of C15), it is the parse of the
+     extracted substring text[s:e] with offsets shifted by s and line / column looked up in the full text *)
+  Theorem scan_value_eq_parse_substring_inst s e v : In (s, e, v) scanI ->
+    (forall h (p : nat), s <= p < e ->
+       scan h T (Z.of_nat p) (Z.of_nat e) =
+       scan h (Repr_proofs.sub T s e) (Z.of_nat (p - s)) (Z.of_nat (e - s))) ->
+    let ln := Repr_proofs.lnT eqb nl T in
+    let col := Repr_proofs.colT eqb nl T in
+    let zs := Z.of_nat s in
+    v = TreeShift.map_presult (LexCoords.shift_tok zs ln col) (TreeShift.shift_trip zs ln col)
+          (fun p => ((p + zs)%Z, ln (p + zs)%Z, col (p + zs)%Z))
+          (TreeShift.parse_slice rr mp tnum end_term P eqb nl scan ignore newline_types fuel
+             (Repr_proofs.sub T s e) 0%Z (Z.of_nat (e - s))).
+  Proof.
+    intros I Hcf. destruct (scan_value_eq_parse_inst s e v I) as (B1 & B2 & B3 & <- & _).
+    unfold ScanInst.parse_windowI.
+    apply (TreeShift_proofs.parse_window_shift eqb nl scan ignore newline_types rr mp tnum end_term P T s e fuel);
+      try lia; [|exact Hcf].
+    intros h p n ty. apply Hbnd.
+  Qed.
+
+  (* ---- the stunted parse as the code runs it: one parser state threaded through the loop, the $END trial made
+     on (a copy of) that very state.  In the driver model a state is a value, so the trial cannot disturb it;
+     the loop below is the abstract [stunted] with the oracles [feed_okI] / [end_choiceI] / [end_trialI], which
+     re-run the parser from the start state.  (At the level of the heap - shallow copy of the value stack,
+     callbacks = {} - the same fact is C13's trial_feed_pure / hfeed_ctrl.) *)
+  Fixpoint stunted_inc (c : Driver.config ltoken) (fed : list tok) (longest : nat) (rest : list tok)
+    : list tok * nat :=
+    match rest with
+    | [] => (fed, longest)
+    | t :: rest' =>
+        match Driver.feed ltoken (TreeShift.ttype tnum) P fuel c (retok t) false with
+        | Driver.Shifted c' =>
+            let fed' := fed ++ [t] in
+            let choice := match Driver.sstack c' with
+                          | q :: _ => match Driver.pt_action P q (Grammar.T (tnum end_term)) with
+                                      | Some _ => true | None => false end
+                          | [] => false
+                          end in
+            let trial := match Driver.feed ltoken (TreeShift.ttype tnum) P fuel c' (end_tokenI fed') true with
+                         | Driver.Accepted _ => true | _ => false end in
+            stunted_inc c' fed' (if choice && trial then length fed' else longest) rest'
+        | _ => (fed, longest)
+        end
+    end.
+
+  Lemma drive_snoc fed t c : fst (drive fed) = Driver.Shifted c ->
+    fst (drive (fed ++ [t])) = match Driver.feed ltoken (TreeShift.ttype tnum) P fuel c (retok t) false with
+                               | Driver.Shifted c' => Driver.Shifted c'
+                               | o => o
+                               end.
+  Proof.
+    unfold ScanInst.drive. rewrite map_app, run_tokens_app.
+    destruct (TreeShift.run_tokens tnum P fuel (Driver.init_config P) (map retok fed)) as [o k]. cbn [fst].
+    intros ->. cbn [map TreeShift.run_tokens].
+    destruct (Driver.feed ltoken (TreeShift.ttype tnum) P fuel c (retok t) false); reflexivity.
+  Qed.
+
+  Theorem stunted_incremental rest : forall c fed longest, fst (drive fed) = Driver.Shifted c ->
+    stunted_inc c fed longest rest = stunted feed_okI end_choiceI end_trialI fed longest rest.
+  Proof.
+    induction rest as [|t rest IH]; intros c fed longest Hc; [reflexivity|].
+    cbn [stunted_inc stunted]. pose proof (drive_snoc fed t c Hc) as D.
+    unfold ScanInst.feed_okI at 1. rewrite D.
+    destruct (Driver.feed ltoken (TreeShift.ttype tnum) P fuel c (retok t) false) as [c'| | | | |] eqn:F; try reflexivity.
+    rewrite (IH c' (fed ++ [t]) _ D). f_equal.
+    unfold accepts_end, ScanInst.end_choiceI, ScanInst.end_trialI. rewrite D. reflexivity.
   Qed.
 
   Theorem scan_longest_inst s e v : In (s, e, v) scanI ->
